@@ -1,6 +1,6 @@
 (* Extraction of the C09 model (and the boolean hypotheses of the theorems) for the correspondence check. *)
 From V.lib Require Import Base.
-From V.c09 Require Import C09Model C09Spec.
+From V.c09 Require Import C09Model C09Spec C09BuildModel.
 Require Import ExtrOcamlBasic.
 Separate Extraction
   tables stsc_box ctts_box stsz_box chunk sample range
@@ -9,4 +9,5 @@ Separate Extraction
   stsz_get_nr_samples stsz_get_sample_size stsz_get_total_sample_size get_offset
   stsc_decode stsc_add_entries stsc_chunk_nr_from_sample_nr stsc_get_chunk stsc_get_containing_chunks
   stsc_get_sample_description_id stsc_get_sample_description_id_pinned trak_get_sample_data trak_get_sample_data_pinned trak_get_ranges trak_chunk_offset
-  consistent deltas_positive.
+  consistent deltas_positive
+  ctts_empty ctts_run ctts_table stsc_empty stsc_call stsc_call_res stsc_run stsc_table stsc_of_table.
